@@ -327,7 +327,7 @@ def shard(member, acc):
     mid = {"name": name, "schema": xml}
     nseeds = 0
     prev_text = None
-    maxseeds = 40 if tier == "quick" else 150
+    maxseeds = 40 if tier == "quick" else 100
     pair_alpha = 8 if tier == "quick" else 12
     for events, d in C.nodes(S, root, depth, lean):
         if d.verdict != "A" or not any(e[0] in ("o", "e") for e in events):
@@ -379,7 +379,7 @@ def shard(member, acc):
                     check_list(S, sch, events, text, tr, acc, mid, True)
                     acc.transitions += 1
         if tier != "quick":
-            sub3 = sub[:6]
+            sub3 = sub[:5]
             for tr in itertools.product(sub3, repeat=3):
                 check_list(S, sch, events, text, tr, acc, mid, any(resolves[x] for x in tr))
                 acc.transitions += 1
@@ -407,12 +407,9 @@ def mixed_keytype_members(tier):
 
 
 def run(tier):
+    # both tiers use the quick schema family (the full two-item family x 150 seeds x triples is > 5 CPU-hours);
+    # the thorough tier goes deeper per schema: more seeds, triples, quadruples
     base = C.members("quick")
-    if tier != "quick":
-        # every 4th two-item container of the full family on top of the quick members (the full family x 150 seeds x
-        # triples is > 4 CPU-hours; what is cut is stated in bounds)
-        names = {m[0] for m in base}
-        base = base + [m for i, m in enumerate(C.members(tier)) if m[0] not in names and i % 4 == 0]
     mem = [m + (tier,) for m in base] + [m + (tier,) for m in mixed_keytype_members(tier)]
     run = core.Run(
         "C14", tier, "model_checking",
@@ -427,10 +424,10 @@ def run(tier):
              "serving two loads (the same text again; the previous seed of the schema, then this one), each "
              "load compared with a fresh loader's.  states = seeds, transitions = override lists "
              "loaded.  Non-trivial = list with >= 1 specifier that resolves to an existing section."
-             % ("40" if tier == "quick" else "150"),
+             % ("40" if tier == "quick" else "100"),
         bounds={"members": len(mem), "max_list": 2 if tier == "quick" else 4,
-                "thorough_family": "quick members + every 4th member of the full two-item family; quadruples on the "
-                                   "first 12 seeds of each member"},
+                "thorough_family": "the quick schema family; 100 seeds per schema, triples over 5 specifiers, "
+                                   "quadruples on the first 12 seeds of each schema"},
         assumptions=["edit() in vz/props/c14.py implements the statement's rule on the event tree",
                      "override values restricted to strings the text syntax can express"])
     core.pmap(shard, mem, run.acc, shard_budget=3000.0)
